@@ -10,7 +10,7 @@ use std::collections::BTreeMap;
 /// failures of other modules' hostile streams that are about C07's subject matter
 fn relevant(f: &str) -> bool {
     let f = f.to_lowercase();
-    ["ledger", "unshare", "dealloc", "panick", "twice", "double", "exceed", "beyond", "not shared", "unmapped", "more than", "longer than", "corrupt", "harness panic"]
+    ["ledger", "unshare", "dealloc", "panick", "twice", "double", "exceed", "beyond", "not shared", "unmapped", "more than", "longer than", "corrupt", "harness panic", "overlap"]
         .iter()
         .any(|k| f.contains(k))
 }
